@@ -71,4 +71,32 @@ def proceeds (flag : Bool) (envValue : Option String) (cmd : Cmd) (root : Module
   allowed (optIn flag envValue cmd) root &&
     (cmd != .fmt || optIn flag envValue cmd || root.setUnstable)
 
+/-! ### justfiles reached through `set fallback`
+
+`Subcommand::execute` compiles the justfile found first and `Subcommand::run` retries in the parent
+directory's justfile while the recipe is unknown and `set fallback` is on; each justfile goes
+through `Subcommand::compile`, which is where `check_unstable` is called. -/
+
+/-- one justfile on the way up: its compiled root module, whether it knows the requested recipe,
+and its `set fallback` -/
+structure Level where
+  root : Module
+  hasRecipe : Bool
+  fallback : Bool
+  deriving Inhabited
+
+inductive Outcome where
+  | refused (level : Nat)     -- the unstable error, nothing ran
+  | ran (level : Nat)         -- the recipe of that level's justfile ran
+  | unknownRecipe
+  deriving DecidableEq, Repr, Inhabited
+
+def runFallback (flag : Bool) (envValue : Option String) : List Level → Nat → Outcome
+  | [], _ => .unknownRecipe
+  | l :: rest, k =>
+    if !proceeds flag envValue .run l.root then .refused k
+    else if l.hasRecipe then .ran k
+    else if l.fallback then runFallback flag envValue rest (k + 1)
+    else .unknownRecipe
+
 end Just.Unstable
